@@ -81,6 +81,8 @@ def build_bmc(model, T, S, K, max_cancel=1):
         s.badrel = BoolVal(False)
         s.unwind = BoolVal(False)
         s.ncancel = IntVal(0)
+        # ghost: what each task has added to each counter attribute and not taken back
+        s.net = [IntVal(0)] * (T * max(1, len(attrs)))
         return s
 
     def copy(s):
@@ -174,6 +176,7 @@ def build_bmc(model, T, S, K, max_cancel=1):
                 elif op == M.ADD:
                     ai = attrs.index(ins.a)
                     st.attr[ai] = st.attr[ai] + ins.b
+                    st.net[t * len(attrs) + ai] = st.net[t * len(attrs) + ai] + ins.b
                     pc += 1
                 elif op == M.SETRET:
                     ai = attrs.index(ins.a)
@@ -273,7 +276,7 @@ def build_bmc(model, T, S, K, max_cancel=1):
     solver = z3.Solver()
     s = init()
     acts = []
-    bads, badrels, deads, unwinds = [], [], [], []
+    bads, badrels, deads, unwinds, leaks = [], [], [], [], []
     for k in range(S):
         kind = Int('kind%d' % k)
         who = Int('who%d' % k)
@@ -330,7 +333,11 @@ def build_bmc(model, T, S, K, max_cancel=1):
         dead = And(Or(*started_unfinished), Not(Or(*s.inready)),
                    *[Or(Not(started_unfinished[t]), s.status[t] == BL) for t in range(T)])
         deads.append(dead)
-    return solver, acts, isw, {'exclusion': bads, 'release_unlocked': badrels, 'deadlock': deads, 'unwinding': unwinds}
+        # candidate for "unusable afterwards": a task has ended (normally or by cancellation) and is still counted
+        leaks.append(Or(*[And(Or(s.status[t] == DN, s.status[t] == CX), s.net[t * len(attrs) + ai] != 0)
+                          for t in range(T) for ai in range(len(attrs))]) if attrs else BoolVal(False))
+    return solver, acts, isw, {'exclusion': bads, 'release_unlocked': badrels, 'deadlock': deads, 'unwinding': unwinds,
+                               'leak': leaks}
 
 
 def decode(model_z3, acts, isw, upto):
